@@ -162,7 +162,7 @@ theorem c18_no_poison (cfg : Cfg) {s s' : St} {t c k eid : Nat} {oc : Outcome} {
     intro t' hne
     unfold recover; rw [he]; simp only
     rw [setPc_pc, if_neg hne]; rfl
-  refine ⟨ho, by unfold recover; rw [he], hpc, ⟨_, by rw [hheap]; exact List.getElem?_set_self hlen, rfl, rfl⟩, ?_, ?_⟩
+  refine ⟨ho, by unfold recover; rw [he]; rfl, hpc, ⟨_, by rw [hheap]; exact List.getElem?_set_self hlen, rfl, rfl⟩, ?_, ?_⟩
   · intro i hi; rw [hheap]; exact List.getElem?_set_ne (Ne.symm hi)
   · intro hl
     have hlk : lookup (recover s t c k eid).heap c k = none := by
